@@ -868,6 +868,12 @@ func c07(c *Ctx) {
 		r.Check("slot-puts-found", n >= 3, token.NoPos, fmt.Sprintf("%d sends on the consolidator's slot channel", n))
 	})
 
+	c.Rule("C07.R11", "the forwarder merges what it drained: the consolidator's slots are combined with MergeMaps before they are split into requests (the wire format carries no timestamps, so this is the last place where the newest gauge datapoint of a flush can win; slots sent one by one make the result depend on the slot a batch landed in) - C15.R2's merging obligations, shared", 2, func(r *Rule) {
+		importObligations(c, r, c15, "C15.R2", func(k string) bool {
+			return strings.HasPrefix(k, "merging:split") || strings.HasPrefix(k, "UNRESOLVED-ANCHOR")
+		})
+	})
+
 	c.Rule("C07.R6", "four-type exhaustiveness: a function traversing >= 2 of Counters/Timers/Gauges/Sets of one MetricMap traverses all four", 15, func(r *Rule) {
 		fourTypeRule(c, r, nil)
 	})
